@@ -120,7 +120,7 @@ T4 36.0 0.0 A 0.3 1.0
 [ system ]
 test
 [ molecules ]
-mol 1
+mol 2
 """
 
 
@@ -165,16 +165,18 @@ def check(spec, ctx):
         raise crash("reread:topology_reader", err)
     finally:
         os.chdir(here)
-    if len(topology.molecules) != 1:
-        raise Violation("reread:molecule_count", f"{len(topology.molecules)} molecules")
-    meta = topology.molecules[0]
-    re_atoms, re_inter = gpcheck.molecule_tables(meta.molecule)
-    err = gpcheck.same_atoms(re_atoms, built_atoms)
-    if err:
-        raise Violation("reread:atoms", err)
-    err = gpcheck.diff_multisets(inter_multiset(re_inter), inter_multiset(built_inter))
-    if err:
-        raise Violation("reread:interactions", err)
+    if len(topology.molecules) != 2:
+        raise Violation("reread:molecule_count", f"{len(topology.molecules)} molecules for a [ molecules ] count of 2")
+    # every copy of the molecule is the molecule that was built
+    for copy_idx, meta in enumerate(topology.molecules):
+        re_atoms, re_inter = gpcheck.molecule_tables(meta.molecule)
+        err = gpcheck.same_atoms(re_atoms, built_atoms)
+        if err:
+            raise Violation("reread:atoms", f"copy {copy_idx}: {err}")
+        err = gpcheck.diff_multisets(inter_multiset(re_inter), inter_multiset(built_inter))
+        if err:
+            raise Violation("reread:interactions", f"copy {copy_idx}: {err}")
+    meta = topology.molecules[1]
     # MetaMolecule.from_itp
     try:
         ff = vermouth.forcefield.ForceField("x")
